@@ -846,6 +846,14 @@ impl CasObjectInfoV1 {
         s
     }
 
+    /// The footer locates its hash and boundary sections by 32-bit offsets from its end (see
+    /// `fill_in_boundary_offsets`); this is the largest number of chunks whose sections those offsets can describe.
+    pub const MAX_NUM_CHUNKS: usize = (u32::MAX as usize
+        - 2 * (size_of::<CasObjectIdent>() + size_of::<u8>() + size_of::<u32>())
+        - 3 * size_of::<u32>()
+        - 16)
+        / (size_of::<MerkleHash>() + 2 * size_of::<u32>());
+
     pub fn fill_in_boundary_offsets(&mut self) {
         self.boundary_section_offset_from_end = (size_of_val(&self.ident_boundary_section)
             + size_of_val(&self.boundaries_version)
